@@ -334,6 +334,33 @@ then any summation order, the pads and the divisions by the counts are exact -/
 def sumsExact (p : Nat) (emin : Int) (N : Nat) (c : Rat) : Bool :=
   (List.range (N + 1)).all (fun j => isBin p emin ((j : Rat) * c))
 
+/-! ## the mean filter with its arithmetic left open
+
+`π` is the pad statistic, `μm` the masked mean a flagged pixel is replaced by, `dec` the outlier
+decision — any function of the pixel and its (padded) window, so any threshold and any way of
+computing means and spread.  `rollingMean1/2` are the instances with exact arithmetic
+(`rollingMean*_is_G`); an evaluation in rounded arithmetic is another instance (`flMean`). -/
+
+def cellsG1 {β} (π : List Rat → Rat) (g : Rat → List Rat → β) (b : Nat) (x : List Rat) : List β :=
+  List.zipWith g x (windows1 b (pad1 π (b / 2) x))
+
+def cellsG2 {β} (π : List Rat → Rat) (g : Rat → List (List Rat) → β) (b0 b1 : Nat)
+    (x : List (List Rat)) : List (List β) :=
+  List.zipWith (fun row wrow => List.zipWith g row wrow) x (windows2 b0 b1 (pad2 π (b0 / 2) (b1 / 2) x))
+
+def rollingG1 (π μm : List Rat → Rat) (dec : Rat → List Rat → Bool) (b : Nat) (x : List Rat) : List Rat :=
+  cellsG1 π (fun xi w => if dec xi w then μm (w.eraseIdx (b / 2)) else xi) b x
+
+def rollingG2 (π μm : List Rat → Rat) (dec : Rat → List (List Rat) → Bool) (b0 b1 : Nat)
+    (x : List (List Rat)) : List (List Rat) :=
+  cellsG2 π (fun xi w => if dec xi w then μm (maskCentre2 (b0 / 2) (b1 / 2) w) else xi) b0 b1 x
+
+/-- a mean in rounded arithmetic: the values added left to right, every addition and the division
+by the count rounded by `fl` -/
+def flMean (fl : Rat → Rat) : List Rat → Rat
+  | [] => 0
+  | a :: r => fl (r.foldl (fun s v => fl (s + v)) a / ((r.length + 1 : Nat) : Rat))
+
 /-! ## float level (2): the mean and median filters in binary64, in NumPy's order of evaluation
 
 Lean's `Float` is IEEE binary64 with a software model the kernel can evaluate, so statements about
